@@ -401,6 +401,11 @@ pub fn child(args: &[String]) -> i32 {
             next += 1;
             APPENDED.store(next, std::sync::atomic::Ordering::SeqCst);
             Action::Continue
+        } else if interrupt_at == -2 {
+            // the writer has nothing more to append and stays: the reader keeps polling (with a short pause) until
+            // the program ends by itself or the parent's time limit strikes
+            std::thread::sleep(std::time::Duration::from_millis(1));
+            Action::Continue
         } else {
             Action::Stop
         }
@@ -442,8 +447,33 @@ pub fn follow_child_def(head: bool, prefix: &[u8], chunks: &[Vec<u8>], stmt: &st
     if let Some(d) = def {
         args.push(hex(d.as_bytes()));
     }
-    let out = std::process::Command::new(exe).args(&args).output().expect("spawn follow child");
-    let stdout = String::from_utf8_lossy(&out.stdout).to_string();
+    // the child is killed when it has not ended after 30 s (end marker "timeout")
+    let mut child = std::process::Command::new(exe).args(&args).stdout(std::process::Stdio::piped()).stderr(std::process::Stdio::null()).spawn().expect("spawn follow child");
+    let start = std::time::Instant::now();
+    let mut timed_out = false;
+    // drain stdout in a thread so that a talkative child cannot block on a full pipe
+    let so = child.stdout.take().unwrap();
+    let drain = std::thread::spawn(move || {
+        use std::io::Read;
+        let mut buf = Vec::new();
+        let mut so = so;
+        let _ = so.read_to_end(&mut buf);
+        buf
+    });
+    loop {
+        match child.try_wait() {
+            Ok(Some(_)) => break,
+            Ok(None) if start.elapsed().as_secs() >= 30 => {
+                let _ = child.kill();
+                timed_out = true;
+                break;
+            }
+            Ok(None) => std::thread::sleep(std::time::Duration::from_millis(2)),
+            Err(_) => break,
+        }
+    }
+    let status = child.wait().ok();
+    let stdout = String::from_utf8_lossy(&drain.join().unwrap_or_default()).to_string();
     let mut delivered = Vec::new();
     let mut end = String::new();
     for l in stdout.lines() {
@@ -457,7 +487,10 @@ pub fn follow_child_def(head: bool, prefix: &[u8], chunks: &[Vec<u8>], stmt: &st
             delivered.push(l.to_string());
         }
     }
-    (delivered, end, out.status.success())
+    if timed_out {
+        end = "timeout".to_string();
+    }
+    (delivered, end, !timed_out && status.map(|s| s.success()).unwrap_or(false))
 }
 
 fn executor_case(head: bool, prefix: &[u8], content: &[u8], chunk_lens: &[usize]) -> Vec<Failure> {
